@@ -7,7 +7,7 @@ from .c08 import text, ansic
 
 def model():
     d = tempfile.mkdtemp(prefix="parr-", dir=scratch())
-    jobs = [("arr", k, 6) for k in range(6)] + [("ind", 0, 1), ("trans", 0, 1)]
+    jobs = [("arr", k, 6) for k in range(6)] + [("ind", 0, 1), ("trans", 0, 1), ("adflt", 0, 1)]
 
     def one(j):
         fam, k, n = j
@@ -39,13 +39,17 @@ def expr(row):
                 "pslice1": "${@:%s}" % off(op["x"]), "pslice2": "${@:%s:%s}" % (off(op["x"]), op["y"]), "aelen": "${#a[%d]}" % op["x"]}[k]
     if fam == "amap":
         return scalar_expr(row["op"]).replace("${v", "${a[@]", 1)
+    if fam == "adflt":
+        sub = {"at": "@", "star": "*"}[row["form"]]
+        name = ("a[%s]" % sub) if row["tgt"] == "arr" else sub
+        return "${%s%sW}" % (name, {"dflt": "-", "dfltC": ":-", "alt": "+", "altC": ":+"}[row["k"]])
     if fam == "ind":
         return {"ind": "${!v}", "inddflt": "${!v:-W}", "indalt": "${!v:+W}"}[row["k"]]
     return {"tU": "${v@U}", "tu": "${v@u}", "tL": "${v@L}"}[row["k"]]
 
 
 def setup(row):
-    if row["fam"] in ("arr", "amap"):
+    if row["fam"] in ("arr", "amap", "adflt"):
         els = " ".join(ansic(text(e)) for e in row["a"])
         return "a=(%s); set -- %s" % (els, els)
     if row["fam"] == "ind":
@@ -62,7 +66,7 @@ def val_text(v):
 def expected(row):
     if row["st"] == "err":
         return "ERR"
-    if row["fam"] in ("arr", "amap"):
+    if row["fam"] in ("arr", "amap", "adflt"):
         return [("s.sh" if x == ["Z"] else val_text(x)) for x in row["val"]]
     return [val_text(row["val"])]
 
